@@ -373,11 +373,12 @@ def decide(prop, tier, seed, args):
     props = load_props()
     pinfo = props.get(prop, {})
     units = units_for(prop)
-    if not units:
+    bounded_only = bool(pinfo.get("bounded_only"))
+    if not units and not bounded_only:
         print(f"UNDECIDED property={prop} reason=no-unit-serves-this-property")
         return E.EXIT_UNDECIDED
     E.ensure_tools()
-    with cf.ThreadPoolExecutor(max_workers=min(4, len(units))) as ex:
+    with cf.ThreadPoolExecutor(max_workers=max(1, min(4, len(units)))) as ex:
         results = list(ex.map(lambda u: run_unit(u["name"], tier), units))
     stability = []
     if tier == "thorough":
@@ -489,6 +490,20 @@ def decide(prop, tier, seed, args):
     }
     if bounded is not None:
         ev["coverage"]["bounded"] = bounded
+    if bounded_only:
+        ev["level"] = "exploration"
+        eng = (bounded or {}).get("engines", [{}])
+        ev["coverage"].update({
+            "evaluations": (bounded or {}).get("evaluations", 0),
+            "distinct_nontrivial": (bounded or {}).get("distinct_nontrivial", 0),
+            "rule": "; ".join(e.get("rule", "") for e in eng),
+            "exhaustive": all(e.get("exhaustive", False) for e in eng) if eng else False,
+            "bound": "; ".join(e.get("bound", "") for e in eng),
+            "samples": [x for e in eng for x in e.get("samples", [])][:8] or ["(none)"],
+            "explanation": "BOUNDED stand-in only: no obligation of this property is discharged deductively; obligations/discharged are 0 by construction",
+        })
+        for k in ("obligations", "discharged", "checker_cmd"):
+            ev["coverage"].pop(k, None)
     ev["wall_s"] = round(time.time() - t0, 2)
     if not os.environ.get("VERIF_NO_EVIDENCE"):
         write_json(os.path.join(VERIF, "evidence", f"{prop}.json"), ev)
@@ -536,6 +551,12 @@ def decide(prop, tier, seed, args):
             print("    scan:   " + "; ".join(r["trusted"]))
             print("    ledger: " + "; ".join(r.get("ledger") or ["<missing>"]))
         return E.EXIT_UNDECIDED
+    if bounded_only:
+        if not bounded or not bounded.get("evaluations"):
+            print(f"UNDECIDED property={prop} reason=bounded-engine-produced-no-evaluations")
+            return E.EXIT_UNDECIDED
+        print(f"OK property={prop} tier={tier} BOUNDED-ONLY evaluations={bounded['evaluations']} distinct_nontrivial={bounded['distinct_nontrivial']} wall_s={ev['wall_s']}")
+        return E.EXIT_OK
     if n_ob == 0:
         print(f"UNDECIDED property={prop} reason=zero-obligations (vacuity guard)")
         return E.EXIT_UNDECIDED
